@@ -411,6 +411,10 @@ func (b *assignmentBuilder) isStructFieldAccessible(structNode bmodel.Node, leaf
 	if !util.IsStructType(structType) {
 		return false
 	}
+	if leafName == "_" {
+		// A blank field can neither be read nor assigned.
+		return false
+	}
 	if named, ok := structType.(*types.Named); ok {
 		return !b.isExternalPkg(named.Obj().Pkg()) || ast.IsExported(leafName)
 	}
